@@ -44,8 +44,10 @@ def run(tier, seed):
             return gen3.gen_prefix_overlap_loc(r)
         if k < 0.58:
             return gen3.gen_prefix_overlap(r)
-        if k < 0.7:
+        if k < 0.68:
             return gen3.gen_lane_stress(r)
+        if k < 0.78:
+            return gen3.gen_nullable_tails(r)
         return gen.gen_core(r, **gk)
     subj, cases = pipeline.make_cases(chk, rng, n_gram, genf, ALL_TAGS)
     irng = chk.rng("inputs")
